@@ -216,7 +216,7 @@ def _flush():
                     continue
                 try:
                     sc = {"id": tid, "dtype": lg.suite["dtype"], "dense": lg.suite["dense"], "t0": lg.suite["t0"],
-                          "method": None, "expectFail": []}
+                          "method": None, "expectFail": [], "mayFail": True}
                     # an execution cut short by a failing assertion / expected exception: close open frames is not needed, the
                     # monitor only reports `EveryCallReturns` for frames left open, which cannot happen (every call returns or raises)
                     rec["trace"] = _normalise(sc, lg, system)
